@@ -148,6 +148,9 @@ def r1a_init(ctx, prog):
                         st.aut['reset'] = True
                 if c == 'resetOp' and e.get('recv') is not None and canon(e['recv']) == sv:
                     st.aut['reset'] = True
+                    st.aut.pop('touched', None)
+                elif c.startswith('set') and c != 'setOpType' and e.get('recv') is not None and canon(e['recv']) == sv and e.get('callee', '').startswith('Session::'):
+                    st.aut.setdefault('touched', (c, e['l']))
 
             def on_return(s2, s, st):
                 s2.rets.append((s, st.copy(), ret_class(s, st)))
@@ -167,6 +170,13 @@ def r1a_init(ctx, prog):
                         file=f['file'], line=s['l'], path=st.show_path())
         if not badr:
             r.ok(f['qname'], 'failing exit after ' + site, 'no failing exit after the start', file=f['file'], line=sets[0]['l'])
+        # a refused start leaves no session state behind either (only Session::resetOp() clears what the setters store)
+        badt = [(s, st) for s, st, rc in a.rets if st.aut.get('touched') and rc != 'OK']
+        for s, st in badt[:1]:
+            r.violation(f['qname'], 'session state on refusing exits of ' + site, 'return at line %s refuses the start after Session::%s (line %s) without resetOp(): what the setter stored survives into the next operation of this session (%d such exits)' % (
+                s['l'], st.aut['touched'][0], st.aut['touched'][1], len({x[0]['l'] for x in badt})), file=f['file'], line=s['l'], path=st.show_path())
+        if not badt:
+            r.ok(f['qname'], 'session state on refusing exits of ' + site, 'no setter precedes a refusing exit', file=f['file'], line=sets[0]['l'])
 
 
 def work_functions(prog):
@@ -402,6 +412,58 @@ def r2_bounds(ctx, prog):
                     r.ok(f['qname'], site, '%d abstract states' % len(hits), file=f['file'], line=line)
 
 
+def r2c_reported_bound(ctx, prog, rule_id='C12.R2c'):
+    """CKR_BUFFER_TOO_SMALL tells the caller which length to come back with: the length stored into *pulLen on that exit is the very bound the announced length was found to be
+    smaller than (`if (*pulLen < need) { *pulLen = need; return CKR_BUFFER_TOO_SMALL; }`).  A smaller value makes the retry fail again (an insufficient answer), a different one is not the
+    length the NULL-pointer query reports."""
+    r = ctx.rule(rule_id, 'the length reported with CKR_BUFFER_TOO_SMALL is the bound the announced length failed against', floor=14, engine='E3 typestate over the failed comparison')
+    seen = set()
+    for api, op, g, finishing, sv, opv in work_functions(prog):
+        if g['qname'] in seen:
+            continue
+        seen.add(g['qname'])
+        buf, plen = out_buffer(g)
+        if not plen or not check_analysable(r, g):
+            continue
+        star = '*' + plen
+
+        class A(Interp):
+            TRACK = ('rv', 'bOK')
+
+            def __init__(self, fn, prog):
+                super().__init__(fn, prog)
+                self.soft = []
+
+            def on_fact(self, atom, truth, st):
+                m = re.fullmatch(r'LT\(%s,(.*)\)' % re.escape(star), atom)
+                if m and truth:
+                    st.aut['bound'] = m.group(1)
+
+            def on_return(self, s, st):
+                if s.get('e') is not None and canon(s['e'], st.env) == 'CKR_BUFFER_TOO_SMALL':
+                    self.soft.append((s, st.copy()))
+        a = A(g, prog).go()
+        r.paths += a.paths_returned
+        if not a.soft:
+            continue
+        ctx.analysed(g)
+        site = 'length reported by %s' % g['qname'].split('::')[-1]
+        bad = None
+        for s_, st in a.soft:
+            rep, bound = st.env.get(star), st.aut.get('bound')
+            if bound is None:
+                bad = bad or (s_, st, 'no failed comparison `%s < need` precedes the CKR_BUFFER_TOO_SMALL exit' % star)
+            elif rep is None:
+                bad = bad or (s_, st, '%s is not set on the CKR_BUFFER_TOO_SMALL exit: the caller learns no length' % star)
+            elif rep != bound and st.env.get(bound) != rep and st.env.get(rep) != bound:
+                bad = (s_, st, 'the announced length failed against %s, but %s is set to %s: the caller who comes back with the reported length is refused again (or the answer differs from the NULL-pointer query)' % (bound, star, rep))
+                break
+        if bad:
+            r.violation(g['qname'], site, bad[2], file=g['file'], line=bad[0]['l'], path=bad[1].show_path())
+        else:
+            r.ok(g['qname'], site, '%d exits, each reports the bound it compared with' % len(a.soft), file=g['file'], line=g['line'])
+
+
 def r3_length_siblings(ctx, prog):
     r = ctx.rule('C12.R3', 'the public and the private key class of an algorithm report the same output length', floor=4, engine='E7')
     for alg in ('RSA', 'DSA', 'EC', 'ED', 'DH', 'GOST'):
@@ -427,6 +489,7 @@ def run(ctx):
     r1cd_typestate(ctx, prog)
     r1e_wrong_part_mode(ctx, prog)
     r2_bounds(ctx, prog)
+    r2c_reported_bound(ctx, prog)
     r3_length_siblings(ctx, prog)
     from rules import c17
     c17.r3_underflow(ctx, prog, rule_id='C12.R2b', text='a reported length is never the result of an unsigned subtraction that can wrap', floor=3, only={g['qname'] for g in prog.functions.values() if g['file'].endswith('/SoftHSM.cpp')}, mode='reported')
